@@ -356,14 +356,39 @@ func (r *Runner) Do(i int) (*Mismatch, error) {
 			k := p.Keys[o.K]
 			switch o.Op {
 			case "put":
-				if err := tx.Put(k, o.V.Bytes()); err != nil {
+				// in every second transaction the caller re-uses its key and value
+				// buffers as soon as the call has returned (long before the commit)
+				kb, vb := k, o.V.Bytes()
+				if i%2 == 1 {
+					kb = append([]byte{}, k...)
+				}
+				err := tx.Put(kb, vb)
+				if i%2 == 1 {
+					for j := range kb {
+						kb[j] ^= 0x5A
+					}
+					for j := range vb {
+						vb[j] ^= 0xA5
+					}
+				}
+				if err != nil {
 					_ = tx.Rollback()
 					return nil, fmt.Errorf("%w: tx put: %v", ErrWrite, err)
 				}
 				overlay[string(k)] = nonNil(o.V.Bytes())
 				delete(deleted, string(k))
 			case "del":
-				if err := tx.Delete(k); err != nil {
+				kb := k
+				if i%2 == 1 {
+					kb = append([]byte{}, k...)
+				}
+				err := tx.Delete(kb)
+				if i%2 == 1 {
+					for j := range kb {
+						kb[j] ^= 0x5A
+					}
+				}
+				if err != nil {
 					_ = tx.Rollback()
 					return nil, fmt.Errorf("%w: tx delete: %v", ErrWrite, err)
 				}
